@@ -669,4 +669,148 @@ Proof.
      match type of H with (if ?c then _ else _) = _ => destruct c; [|discriminate] end; injection H as <-;
      (apply M_keep; [exact HM|split; [unfold same_ctl; cbn; auto|reflexivity]])).
 Qed.
+
+(* ------------------------------------------------------------------ fixBlock's resumption: next block / Recovery's switch *)
+Lemma finished_act r a : finished_mem sh r (OAct a) = mget r (OAct a).
+Proof.
+  unfold finished_mem, finish_mem, mget, over. simpl.
+  rewrite ifind_app, ifind_blocks_seq; [reflexivity|]. intros b' E. discriminate.
+Qed.
+
+Lemma group_nil l : group_by_block l = [] -> l = [].
+Proof.
+  destruct l as [|[b q] l]; [reflexivity|]. simpl. destruct (group_by_block l) as [|[b' qs] r]; [discriminate|].
+  destruct (Nat.eqb b b'); discriminate.
+Qed.
+
+Hypothesis MS : mem_sound.
+
+Lemma M_start_recover r todo :
+  (forall a, obj_in_shape sh (OAct a) = true -> act_ok (mget r (OAct a))) ->
+  (forall b q rs, seq_of sh b q = Some rs -> scons (mget r) b q (length rs)) ->
+  (forall b qs q rs, In (b, qs) todo -> In q qs -> seq_of sh b q = Some rs ->
+     res_shape (mget r) b q (length rs) (first_open (r_pl r) b q)) ->
+  NoDup (map fst todo) -> r_pl r = pl ->
+  (forall b q, ~ In (b, q) (resumed sh I) -> mem_st r (OSeq b q) = seq_st0 sh I b q) ->
+  (todo = [] -> forall b q, In (b, q) (resumed sh I) -> cf (mem_st r (OSeq b q))) ->
+  M (start_recover sh r todo).
+Proof.
+  intros Ha Hs Hw Hnd Hpl Hnon Hres. destruct todo as [|[b qs] rest].
+  - (* Recovery's switch *)
+    simpl. unfold take_entry. set (m := finished_mem sh r).
+    set (r' := {| r_s := _; r_base := r_base r; r_mem := finish_mem sh (r_pl r) (r_fails r) (r_mem r); r_ph := RRun;
+                  r_I := r_I r; r_pl := r_pl r; r_fails := r_fails r |}).
+    assert (Hm : forall o, mget r' o = m o) by reflexivity.
+    assert (Hma : forall a, m (OAct a) = mget r (OAct a)) by (intro a; apply finished_act).
+    assert (Hmq : forall b q, m (OSeq b q) = mget r (OSeq b q)) by (intros b q; apply finished_seq).
+    assert (Hmb : forall b, block_of sh b <> None -> mst m (OBlock b) = blk_st sh I (r_fails r) b).
+    { intros b Hb. unfold m, mst, blk_st. rewrite finished_block by exact Hb. now rewrite Hpl. }
+    assert (Hsame : forall b q n, msame (mget r) (mget r') b q n).
+    { intros b q n. split; [rewrite Hm; apply Hmq|intros i _; rewrite Hm; apply Hma]. }
+    constructor.
+    + intros a Hin. rewrite Hm, Hma. now apply Ha.
+    + intros b q rs Hq. eapply msame_scons; [apply Hsame|]. now apply Hs.
+    + intros b q rs x [[H _] _]. simpl in H. exfalso. eapply plan_phase_not_blocks; eauto.
+    + intros b q rs _ Hwt. unfold waiting in Hwt. simpl in Hwt. contradiction.
+    + intros _ Hend b q _ Hsq Ht.
+      assert (Hpt : is_terminal (pln_st sh I (r_fails r)) = false).
+      { unfold ended in Hend. simpl in Hend.
+        assert (Hmp : mst m OPlan = pln_st sh I (r_fails r)).
+        { unfold m, mst, pln_st, finished_mem, finish_mem. rewrite over_cons_same. now rewrite Hpl. }
+        fold m in Hend. rewrite Hmp in Hend.
+        destruct (pln_st sh I (r_fails r)); try reflexivity; exfalso; apply Hend; left; reflexivity. }
+      assert (Hb : block_of sh b <> None) by (unfold seq_of in Hsq; destruct (block_of sh b); [discriminate|contradiction]).
+      unfold mst in Ht. rewrite Hm in Ht. fold (mst m (OBlock b)) in Ht. rewrite Hmb in Ht by exact Hb.
+      unfold sstat. rewrite Hm, Hmq. fold (mst (mget r) (OSeq b q)). fold (mem_st r (OSeq b q)).
+      destruct (in_dec pair_dec (b, q) (resumed sh I)) as [Hin|Hnin].
+      * right. now apply Hres.
+      * rewrite Hnon by exact Hnin. eapply (ms_rs2 MS); eauto.
+    + intros todo Ht. discriminate.
+  - (* the next block *)
+    simpl.
+    set (r' := {| r_s := _; r_base := r_base r; r_mem := r_mem r; r_ph := RRecover ((b, qs) :: rest);
+                  r_I := r_I r; r_pl := r_pl r; r_fails := r_fails r |}).
+    constructor; change (mget r') with (mget r).
+    + exact Ha.
+    + exact Hs.
+    + intros b0 q rs x _ _ Hx. unfold seqs_of in Hx. simpl in Hx.
+      destruct (rec_block_nth _ _ _ _ _ Hx) as [[_ ->]|[_ ->]]; unfold cur_ok, cur_okm; [discriminate|exact Logic.I].
+    + intros b0 q rs Hq Hwt. unfold waiting in Hwt. cbn [r_ph r'] in Hwt. cbn [r_pl r'].
+      destruct Hwt as [(-> & Hin & _)|(qs' & Hin & Hq')].
+      * eapply Hw; eauto. left. reflexivity.
+      * eapply Hw; eauto. right. exact Hin.
+    + intro H. discriminate.
+    + intros todo Ht. injection Ht as <-. exact Hnd.
+Qed.
+
+(* ------------------------------------------------------------------ epsilon-moves *)
+Lemma M_reps r r1 : Inv sh I r -> M r -> reps sh r = Some r1 -> M r1.
+Proof.
+  intros Hi HM H. unfold reps in H. destruct (r_ph r) as [| [|[b qs] todo] |] eqn:Ep; try discriminate.
+  - (* fixBlock's g.Wait returned for this block *)
+    destruct (forallb s_done (b_seqs (s_b (r_s r)))) eqn:Ed; [|discriminate]. injection H as <-.
+    destruct (i_const _ _ _ Hi) as [HI Hpl].
+    destruct (i_rec _ _ _ Hi _ Ep) as ((b0 & qs0 & rest & E & Ha & Hbe & Hd & Hm) & H2 & Hne & H3 & H4).
+    injection E as <- <- <-.
+    pose proof (m_todo r HM _ Ep) as Hnd. cbn [map fst] in Hnd. inversion Hnd as [|? ? Hni Hnd']; subst.
+    apply M_start_recover; cbn [r_pl]; auto.
+    + apply (m_act r HM).
+    + apply (m_seq r HM).
+    + intros b' qs' q rs Hin Hq Hsq. apply (m_wait r HM b' q rs Hsq). unfold waiting. rewrite Ep. right. eauto.
+    + intros -> b' q Hin. destruct (H4 _ _ Hin) as [Hp|Hcf]; [|exact Hcf].
+      unfold pending in Hp. rewrite Ep in Hp. destruct Hp as [(_ & _ & (x & Hx & Hnd0))|(qs' & [] & _)].
+      destruct (forallb_nth_done _ _ _ Ed Hx) as (v & ->). exfalso. eapply Hnd0; eauto.
+  - (* a phase move of the state chain *)
+    apply option_map_some in H as (s2 & H & ->). unfold rp_eps in H.
+    destruct (p_eps sh (r_s r)) as [s'|] eqn:Ee; [|discriminate]. injection H as <-.
+    assert (Hnend : ~ ended r) by (destruct (p_eps_not_ended _ _ _ Ee) as [A B]; intros [E|E]; contradiction).
+    destruct (p_eps_phase _ _ _ Ee) as [Hout Hinb].
+    destruct (p_eps_spec _ _ _ Ee) as [_ [Hent|[Hent Hst]]].
+    + change (entered (r_s r) s') with (entered_new (r_s r) s'). rewrite Hent.
+      destruct (r_enter_ge sh (mget r) s' (s_cb s')) as (cb' & Hle & -> & Hnt).
+      assert (Hp' : s_ph s' = PBlocks).
+      { unfold entered_new in Hent. apply andb_true_iff in Hent as [Hent _]. destruct (s_ph s'); try discriminate. reflexivity. }
+      unfold entered_new in Hent. apply andb_true_iff in Hent as [_ Hent].
+      destruct (Hinb Hp') as [Hpre|[Hpb Hcb]].
+      * apply M_enter; auto. unfold upcoming. destruct Hpre as [E|[E|E]]; rewrite E; exact Logic.I.
+      * assert (Hs : s_cb s' = S (s_cb (r_s r))).
+        { destruct Hcb as [E|E]; [|exact E]. rewrite Hpb, E in Hent. simpl in Hent. rewrite Nat.eqb_refl in Hent. discriminate. }
+        apply M_enter; auto. unfold upcoming. rewrite Hpb. lia.
+    + change (entered (r_s r) s') with (entered_new (r_s r) s'). rewrite Hent.
+      destruct (pphase_eqb (s_ph s') PBlocks) eqn:Epb.
+      * assert (Hp' : s_ph s' = PBlocks) by (destruct (s_ph s'); try discriminate; reflexivity).
+        destruct (Hst Hp') as (Hp & Hcb & Hsq & Hbe). apply M_stay; auto.
+      * assert (Hp' : s_ph s' <> PBlocks) by (intro Q; rewrite Q in Epb; discriminate).
+        apply M_phase; auto.
+Qed.
+
+(* ------------------------------------------------------------------ the initial state *)
+Lemma M_rinit rs r0 : ist I OPlan = Running -> rinit sh I rs = Some r0 -> M r0.
+Proof.
+  intros Hp H. unfold rinit in H. rewrite Hp in H. simpl in H.
+  destruct (negb (resumable_ok (pln_of sh I))); [discriminate|]. injection H as <-.
+  apply M_start_recover; cbn [r_pl]; auto.
+  - apply (ms_act MS).
+  - apply (ms_seq MS).
+  - intros b qs q rs0 Hin Hq Hsq. apply (ms_res MS); [exact Hsq|]. eapply group_in; eauto.
+  - apply (ms_todo MS).
+  - intros b q Hn. unfold mem_st, mst, mget, over. simpl. rewrite (mem0_nonresumed sh I b q Hn). reflexivity.
+  - intros E b q Hin. apply group_nil in E. unfold resumed in Hin. unfold pl in E. rewrite E in Hin. contradiction.
+Qed.
+
+(* ------------------------------------------------------------------ every run *)
+Hypothesis RS : repair_sound sh I.
+
+Record K (r : rst) : Prop := { k_inv : Inv sh I r; k_m : M r; k_g : GR r }.
+
+Theorem K_run d rs r0 tr r :
+  ist I OPlan = Running -> rinit sh I rs = Some r0 -> rrun d sh r0 tr = Some r -> K r.
+Proof.
+  intros Hp Hi. apply rrun_inv.
+  - apply rstep_inv.
+    + intros r1 r2 [A B C] H. constructor; [eapply reps_inv; eauto|eapply M_reps; eauto|eapply GR_reps; eauto].
+    + intros r1 e r2 [A B C] H. constructor; [exact (proj1 (handle_inv sh I RS d _ _ _ A H))|eapply M_rhandle; eauto|eapply GR_rhandle; eauto].
+    + intros r1 e r2 [A B C] H. constructor; [exact (proj1 (flush_inv sh I _ _ _ A H))|eapply M_flush; eauto|eapply GR_flush; eauto].
+  - constructor; [eapply rinit_inv; eauto|eapply M_rinit; eauto|eapply GR_rinit; eauto].
+Qed.
 End MemInv.
